@@ -175,7 +175,13 @@ static void wl_c02t(Rng& r, long n) {
       ExprGen g(r, cfg);
       Array<const ExprSymbol> args(nv);
       for (int i = 0; i < nv; i++) { const ExprSymbol& s = ExprSymbol::new_(("x" + to_string(i)).c_str(), Dim::scalar()); args.set_ref(i, s); g.syms.push_back(&s); }
-      const ExprNode& e = gen_elem(r, g, r.range(1, 3));
+      const ExprNode& e0 = gen_elem(r, g, r.range(1, 3));
+      // the generic operators of src/operators (atanhc, sinc), on arguments that reach the ends of their domains
+      const ExprNode* ep = &e0;
+      if (r.coin(18)) { const ExprNode& arg = r.coin(60) ? (const ExprNode&)args[r.below(nv)] : (const ExprNode&)(0.5 * args[r.below(nv)]);
+                        const ExprNode& gop = ExprGenericUnaryOp::new_(r.coin(65) ? "atanhc" : "sinc", arg);
+                        ep = r.coin() ? &(args[nv - 1] + gop) : &(e0 * 0.0 + gop * (double)r.range(1, 3)); }
+      const ExprNode& e = *ep;
       string dag = dump_expr(e, args);
       Function f(args, e, "f");
       for (int k = 0; k < 3; k++) {
@@ -229,6 +235,37 @@ static void partial_family(Rng& r) {
   }
 }
 
+// An index applied to an already indexed symbol (sub-block with a row / column offset, then an entry, a row or a column of it),
+// evaluated after a BACKWARD sweep on the same object (the evaluator loads only the entries of the arguments that the expression
+// uses: a wrong "used entries" mask shows when a backward sweep has left a narrowed domain in an entry that is never reloaded)
+static void nested_index_family(Rng& r) {
+  int R = r.range(2, 4), C = r.range(2, 4);
+  const ExprSymbol& A = ExprSymbol::new_("A", Dim::matrix(R, C)); const ExprSymbol& z = ExprSymbol::new_("z", Dim::scalar());
+  Array<const ExprSymbol> x(2); x.set_ref(0, A); x.set_ref(1, z);
+  int r1 = r.below(R), r2 = r.range(r1, R - 1), c1 = r.below(C), c2 = r.range(c1, C - 1);
+  if (r1 == r2 && c1 == c2) { if (c1 > 0) c1--; else if (c2 < C - 1) c2++; else if (r1 > 0) r1--; else r2++; }
+  const ExprNode& sub = A[DoubleIndex::submatrix(A.dim, r1, r2, c1, c2)];
+  int i = r.below(r2 - r1 + 1), j = r.below(c2 - c1 + 1);
+  const ExprNode* e;
+  if (sub.dim.is_vector()) e = &sub[DoubleIndex::one_index(sub.dim, sub.dim.type() == Dim::ROW_VECTOR ? j : i)];
+  else switch (r.below(3)) { case 0: e = &sub[DoubleIndex::one_elt(sub.dim, i, j)]; break;
+                             case 1: e = &(sub[DoubleIndex::one_row(sub.dim, i)][DoubleIndex::one_index(Dim::row_vec(c2 - c1 + 1), j)]); break;
+                             default: e = &(sub[DoubleIndex::one_col(sub.dim, j)][DoubleIndex::one_index(Dim::col_vec(r2 - r1 + 1), i)]); }
+  const ExprNode& full = r.coin() ? *e : (*e + 2.0 * z);
+  string dag = dump_expr(full, x);
+  Function f(x, full);
+  int nvar = R * C + 1;
+  for (int k = 0; k < 3; k++) {
+    IntervalVector b1 = gen_box(r, nvar), b2 = gen_box(r, nvar);
+    try { Interval y = f.eval(b1); if (!y.is_empty() && !y.is_unbounded()) { IntervalVector hb = b1; f.backward(Interval(y.lb(), y.mid()), hb); } } catch (...) {}
+    Interval res = f.eval(b2); check_round_up("eval-nested-index");
+    string rt = res.is_empty() ? string("E") : mtok(res);
+    for (int q = 0; q < 3; q++) { Vector p = pick_point(r, b2); EMIT("evalpt %s %s => %s\n", dag.c_str(), ptok(p).c_str(), rt.c_str()); }
+    IntervalVector rv = f.eval_vector(b2);
+    { Vector p = pick_point(r, b2); EMIT("evalpt %s %s => %s\n", dag.c_str(), ptok(p).c_str(), rv.is_empty() ? "E" : mtok(rv[0]).c_str()); }
+  }
+}
+
 int main(int argc, char** argv) {
   string wl = argc > 1 ? argv[1] : "c02";
   uint64_t seed = argc > 2 ? strtoull(argv[2], 0, 10) : 1;
@@ -265,6 +302,7 @@ int main(int argc, char** argv) {
       }
       do {
       if (r.coin(12)) { try { partial_family(r); } catch (std::exception& e) { EMIT("evalerror partial %s => 0\n", e.what()); } }
+      if (r.coin(12)) { try { nested_index_family(r); } catch (std::exception& e) { EMIT("evalerror nested-index %s => 0\n", e.what()); } }
       GenCfg cfg; cfg.max_depth = r.range(1, 4); cfg.thick_consts = false; cfg.allow_vec = r.coin(70); cfg.allow_apply = r.coin(50); cfg.allow_sqrt = r.coin(40);
       int rows = 1, cols = 1;
       if (cfg.allow_vec) switch (r.below(6)) { case 0: rows = r.range(2, 4); break; case 1: cols = r.range(2, 4); break; case 2: rows = r.range(2, 3); cols = r.range(2, 3); break; case 3: rows = r.range(2, 3); cols = r.range(3, 5); break; default: break; }
@@ -278,6 +316,14 @@ int main(int argc, char** argv) {
         if (r.coin(40)) { // history: an evaluation that is likely to leave the definition domain (empty result, exception path)
           IntervalVector bad(b.nvar); double c = r.coin() ? -64.0 : (r.coin() ? 64.0 : 0.0); for (int i = 0; i < b.nvar; i++) bad[i] = Interval(c - r.range(0, 4), c + (r.coin() ? 0 : r.range(0, 4)));
           try { Domain e = f.eval_domain(bad); (void)e; } catch (...) {} }
+        if (r.coin(35)) { // history: a BACKWARD sweep (HC4Revise shares the node domains with the evaluator) on another box, with half of the image
+          IntervalVector hb = gen_box(r, b.nvar);
+          try { Domain yy = f.eval_domain(hb);
+                if (!yy.is_empty()) { Domain half(yy.dim);
+                  switch (yy.dim.type()) { case Dim::SCALAR: half.i() = Interval(yy.i().lb(), yy.i().mid()); break;
+                    case Dim::ROW_VECTOR: case Dim::COL_VECTOR: half.v() = yy.v(); for (int q = 0; q < half.v().size(); q++) half.v()[q] = Interval(yy.v()[q].lb(), yy.v()[q].mid()); break;
+                    default: half.m() = yy.m(); for (int q = 0; q < half.m().nb_rows(); q++) for (int s = 0; s < half.m().nb_cols(); s++) half.m()[q][s] = Interval(yy.m()[q][s].lb(), yy.m()[q][s].mid()); }
+                  f.backward(half, hb); } } catch (...) {} }
         Domain res = f.eval_domain(box);
         check_round_up("eval");
         { // a node domain with an empty entry (e.g. 0^-1: no exception is raised) means the function is undefined on the whole box:
